@@ -4,7 +4,7 @@ every operation over strings from a mixed-width alphabet; eval(repr(x)) == x ins
 import itertools, json, os, random, concurrent.futures
 import vlib, pydiff
 
-THEOREMS = ["C14_len_counts_code_points", "C14_pos_is_prefix_width", "C14_slice_by_code_points"]
+THEOREMS = ["C14_len_counts_code_points", "C14_pos_is_prefix_width", "C14_slice_by_code_points", "C14_repr_eval_roundtrip"]
 ALPHA = ["a", "b", " ", "'", '"', "\\", "\n", "\x00", "\x7f", "é", "€", "\U0001F600", "ß"]
 
 def lit(s):
@@ -69,6 +69,55 @@ def program(s, rnd):
     add("t(lambda: eval(repr((s, [s, 1, 2.5], (s,), -7, 2**70))) == (s, [s, 1, 2.5], (s,), -7, 2**70))", op="repr_nested")
     return "\n".join(L) + "\n", meta
 
+# ---------------- repr text and its way back through lexer + decoder vs Model/Repr.v, Model/Escape.v
+REPR_ALPHA = [0, 7, 9, 10, 13, 27, 31, 32, 34, 39, 48, 65, 92, 97, 110, 120, 126, 127, 128, 133, 160, 173, 233, 255, 256, 0x3b1, 0x2028, 0xd7ff, 0xe000, 0xfffd, 0xffff, 0x10000, 0x1f600, 0xe0001, 0x10ffff]
+RESTS = [[], [32, 43, 32, 39, 120, 39], [91, 48, 58, 49, 93], [44, 32, 49], [32, 61, 61, 32, 34, 34]]
+def repr_cases(tier, seed):
+    rnd = random.Random(seed + 1414)
+    strs = [[]] + [[c] for c in REPR_ALPHA] + [[a, b] for a in REPR_ALPHA for b in (34, 39, 92, 233, 173, 10, 97)]
+    for _ in range(400 if tier == "quick" else 20000):
+        strs.append([rnd.choice(REPR_ALPHA) for _ in range(rnd.randint(2, 7))])
+    for _ in range(100 if tier == "quick" else 5000):
+        strs.append([rnd.choice([rnd.randint(0, 0x2ff), rnd.randint(0x2000, 0x2100), rnd.randint(0xe000, 0x10ffff)]) for _ in range(rnd.randint(1, 5))])
+    out = []
+    for i, cps in enumerate(strs):
+        cps = [c for c in cps if not 0xd800 <= c <= 0xdfff]
+        rest = RESTS[i % len(RESTS)] if i % 3 else []
+        out.append((cps, rest))
+    out.append(([], [39]))      # '' directly followed by ' opens a triple-quoted string: rejected by both
+    return out
+
+def run_repr(cases):
+    inp = "".join((" ".join(map(str, cps)) or "-") + (" | " + " ".join(map(str, rest)) if rest else "") + "\n" for cps, rest in cases)
+    rc, out = vlib.run_tool("impl", ["c14repr"], input=inp)
+    lines = [l for l in out.split("\n") if l and not l.startswith("WARNING")]
+    return (lines + ["WORKER-DIED"] * len(cases))[:len(cases)]
+
+def coq_repr(name, cases, obs):
+    nl = lambda l: "[" + "; ".join(str(x) for x in l) + "]"
+    rows = []; keep = []
+    for k, ((cps, rest), o) in enumerate(zip(cases, obs)):
+        try:
+            r, p, v = [x.strip() for x in o.split(" ; ")]
+            rtext = [int(x) for x in r.split()[1:]]
+            pr = [c for c, b in zip(cps, p.split()[1:]) if b == "1"]
+            val = "None" if v.startswith("E:") else "(Some %s)" % nl([int(x) for x in v.split()[1:]])
+        except Exception:
+            rtext, pr, val = [0], [], "None"
+        rows.append("(%s, %s, %s, %s, %s)" % (nl(cps), nl(pr), nl(rest), nl(rtext), val)); keep.append(k)
+    text = ("From Coq Require Import List NArith Bool. Import ListNotations.\nFrom GP Require Import Model.Escape Model.Repr.\nOpen Scope N_scope.\n"
+      "Definition leq (a b : list N) := if list_eq_dec N.eq_dec a b then true else false.\n"
+      "Definition ok (c : list N * list N * list N * list N * option (list N)) : bool := let '(s, pr, rest, rtext, v) := c in\n"
+      "  leq (repr_str (fun x => existsb (N.eqb x) pr) s) rtext &&\n"
+      "  match eval_literal (rtext ++ rest), v with Some (a, r), Some b => leq a b && leq r rest | None, None => true | _, _ => false end.\n"
+      "Definition cases : list (list N * list N * list N * list N * option (list N)) := [\n" + ";\n".join(rows) + "].\n"
+      "Fixpoint bad (i : nat) (l : list (list N * list N * list N * list N * option (list N))) : list nat := match l with [] => [] | c :: r => if ok c then bad (S i) r else i :: bad (S i) r end.\n"
+      "Definition M := Eval vm_compute in bad 0 cases.\nPrint M.\n")
+    rc, out = vlib.coqc_run(name, text, timeout=900)
+    if rc != 0: return None, out[-1500:]
+    v = vlib.parse_coq_value("M " + out[out.find("M ="):].replace("M =", " =", 1)) if "M =" in out else None
+    return v, out[-300:]
+
 def coq_slices(name, rows):
     text = ("From Coq Require Import List Bool Arith NArith. Import ListNotations.\nFrom GP Require Import Model.Utf8.\n"
       "Definition leqN (a b : list N) : bool := if list_eq_dec N.eq_dec a b then true else false.\n"
@@ -130,18 +179,37 @@ def check(res):
             if v is None: tie_err = log
             else: tie_bad += [rowmeta[sh[i]] for i in v]
     res.oblige("correspondence: s[a:b] of the implementation = str_slice of the model on %d cases (vm_compute)" % len(rows), tie_err is None and not tie_bad, tie_err or str(tie_bad[:3]))
+    # --- tie: repr text and its evaluation vs Model/Repr.v + Model/Escape.v
+    rcases = repr_cases(tier, seed); robs = run_repr(rcases)
+    repr_bad = []; repr_err = None
+    if "Model/Repr.vo" in built:
+        rsh = [list(range(len(rcases)))[i:i + 3000] for i in range(0, len(rcases), 3000)]
+        with concurrent.futures.ThreadPoolExecutor(8) as ex:
+            for sh, (v, log) in zip(rsh, ex.map(lambda a: coq_repr("C14_repr_%d" % a[0], [rcases[i] for i in a[1]], [robs[i] for i in a[1]]), list(enumerate(rsh)))):
+                if v is None: repr_err = log
+                else: repr_bad += [(rcases[sh[i]], robs[sh[i]]) for i in v]
+    else:
+        repr_err = "Model/Repr.v did not compile"
+    res.oblige("correspondence: repr(str) text = Model/Repr.v (with the measured strconv.IsPrint) and parse(repr text + rest) = lexer scan + DecodeEscape model on %d strings (vm_compute)" % len(rcases),
+               repr_err is None and not repr_bad, repr_err or str(repr_bad[:3]))
     res.coverage.update(evaluations=n, distinct_nontrivial=nontrivial, programs=len(progs),
         rule="all strings of length <= 2 and seeded strings of length 3..9 over an alphabet of 1-, 2-, 3- and 4-byte characters, both quotes, backslash, newline, NUL and DEL; per string: len, iteration, every index, slices, in/find(+start/end)/count/startswith/endswith/split/replace/join with substrings taken from the string and the alphabet, strip, comparison, repetition, ord/chr, repr, eval(repr(x)) == x (also nested in tuple/list with int/float/big int); compared with CPython; non-trivial = the string contains a multi-byte character",
         samples=[dict(string=[hex(ord(c)) for c in ss[200]], first_lines=impl[200].get("out", "").splitlines()[:3])],
-        distribution=dict(strings=len(ss), lines=n, model_checked_slices=len(rows)), oracle_disagreements=len(mism),
-        modelled_not_verified=["strings.Index/Count/Split/Replace", "StringEscape / DecodeEscape", "unicode tables"])
+        distribution=dict(strings=len(ss), lines=n, model_checked_slices=len(rows), model_checked_reprs=len(rcases)), oracle_disagreements=len(mism),
+        modelled_not_verified=["strings.Index/Count/Split/Replace", "strconv.IsPrint (a parameter of the repr theorem, measured in the correspondence)", "repr of bytes/float/containers (CPython differential only)", "unicode tables"])
     if mism:
         case, got, exp = mism[0]
         res.violation("counterexample", "string operation differs from Python's code-point semantics", dict(input=case, expected=exp, observed=got,
                       others=[dict(input=c, observed=g, expected=e) for c, g, e in mism[1:8]]))
         return
-    if not p_ok or tie_bad or tie_err:
-        res.violation("proof-broken" if not p_ok else "tie-broken", "C14 no longer shown", dict(theorem_or_correspondence="Props/C14.v / slice correspondence",
+    if repr_bad:
+        (cps, rest), o = repr_bad[0]
+        res.violation("counterexample", "repr text of a string, or the value the parser reads back from it, differs from the proved model (Model/Repr.v, C14_repr_eval_roundtrip)",
+                      dict(input=dict(harness_command="impl c14repr", code_points=cps, text_after_the_literal=rest), observed=o,
+                           expected="R = repr_str of the model, V = the string itself", others=[dict(code_points=c, rest=r, observed=ob) for (c, r), ob in repr_bad[1:6]]))
+        return
+    if not p_ok or tie_bad or tie_err or repr_err:
+        res.violation("proof-broken" if not p_ok else "tie-broken", "C14 no longer shown", dict(theorem_or_correspondence="Props/C14.v / slice correspondence / repr correspondence", repr_error=repr_err,
                       coqc_error=[l for l in mlog.splitlines() if "rror" in l][-10:], first_disagreements=[str(t) for t in tie_bad[:5]], tie_error=tie_err), no_input=True)
 
 def replay(path):
